@@ -90,7 +90,7 @@ pub fn generate(seed: u64, n: usize, thorough: bool) -> Cases {
         }
         let closed = structs_closed(&l);
         match r.below(10) {
-            0..=5 => {
+            0..=4 => {
                 // several queries against one library
                 for _ in 0..4 {
                     let names = if r.chance(1, 3) && !l.globals.is_empty() {
@@ -149,7 +149,7 @@ pub fn generate(seed: u64, n: usize, thorough: bool) -> Cases {
                     );
                 }
             }
-            6 | 7 => {
+            5..=7 => {
                 if !closed {
                     continue;
                 }
@@ -157,6 +157,15 @@ pub fn generate(seed: u64, n: usize, thorough: bool) -> Cases {
                 // the same path read plainly, with the rest of an expression hanging off it, through bracket strings, or as the
                 // receiver path of a method call (the last segment is then the method's name)
                 let form = r.below(6);
+                let np = if form == 3 && !l.globals.is_empty() && r.chance(1, 2) {
+                    // a method called on an explicit entry: the entry's own key, then a name it does not define
+                    let k = l.globals.keys().nth(r.below(l.globals.len())).unwrap().clone();
+                    let mut segs: Vec<String> = k.split('.').map(|s| if s == "*" { (*r.pick(&NAMES)).to_string() } else { s.to_string() }).collect();
+                    segs.push((*r.pick(&["fetch", "a", "zz"])).to_string());
+                    segs
+                } else {
+                    np
+                };
                 let src = match form {
                     0 if np.len() >= 2 => format!("local _ = {}(1).tail\n", np.join(".")),
                     1 if np.len() >= 2 => format!("local _ = {}(1):tail().more\n", np.join(".")),
